@@ -149,8 +149,8 @@ impl Check for C20 {
     }
     fn runs(&self, tier: Tier) -> u64 {
         match tier {
-            Tier::Quick => 60_000,
-            Tier::Thorough => 2_000_000,
+            Tier::Quick => 600_000,
+            Tier::Thorough => 18_000_000,
         }
     }
 
@@ -168,8 +168,22 @@ impl Check for C20 {
         } else {
             doc.pay.max_len = doc.pay.max_len.min(300);
         }
-        let io_o = InputOpts { doc, faulted_pct: 10, truncated_pct: 10, random_pct: 0, soup_pct: 0, max_faults: 2 };
-        let gi = cases::gen_input(&mut rng, &spec, &io_o, &mut fs);
+        // no random byte faults here: the async iterator has no way to lower the 4 GB size limit, so a
+        // flipped size field would make both iterators allocate gigabytes (legitimately). Error paths are
+        // covered by truncation and by structure-preserving faults that leave declared sizes alone.
+        let io_o = InputOpts { doc: doc.clone(), faulted_pct: 0, truncated_pct: 15, random_pct: 0, soup_pct: 0, max_faults: 0 };
+        let mut gi = cases::gen_input(&mut rng, &spec, &io_o, &mut fs);
+        if gi.class == "valid" && rng.chance(1, 8) {
+            let d = crate::gen::gen_doc(&mut rng, &spec, &doc);
+            loop {
+                let (b, kind) = crate::checks::c06::structural_fault(&mut rng, &spec, &d);
+                if kind != "fault_size_change" && kind != "fault_size_to_unknown" {
+                    gi.bytes = b;
+                    gi.class = "structural-fault";
+                    break;
+                }
+            }
+        }
         let n = gi.bytes.len();
         let buffered = cases::gen_buffered(&mut rng, &spec, 25);
         let mut events: Vec<AEv> = Vec::new();
@@ -220,7 +234,12 @@ impl Check for C20 {
             return Ok(ExecOk { nontrivial: false });
         }
         let n = c.input.len();
+        crate::spec::install(&c.spec);
+        crate::alloc::arm();
         let a = run_async(&c.spec, &c.input, &c.buffered, &c.script, c.use_stream, 4 * n + 64);
+        let usage = crate::alloc::disarm();
+        st.max("max_peak_heap_growth_during_async_run", usage.peak as u64);
+        st.max("max_single_allocation_during_async_run", usage.max_request as u64);
         st.add("polls", a.polls as u64);
         st.add("reads_completed", a.reads as u64);
         st.add("fault_pending_delivered", a.pendings as u64);
